@@ -4,7 +4,7 @@
    core/coreutil/schedule.go.  The specification is the abstract token stream of the flattened
    configuration: [items_from] (tokens [IT t] and unlimited windows [IW fin], every part starting
    at the finish time of the part before it), [abs_next] (first token in order, a window answers
-   "now" while open and is left behind for good once closed, then the final finish time) and
+   max(now, start) while open and is left behind for good once closed, then the final finish time) and
    [abs_left] (exact count, or -1 while a window is not closed). *)
 From Coq Require Import List ZArith Bool Arith Lia.
 From PV Require Import Model.SchedTree Model.SchedConc Proofs.SchedTreeProofs Proofs.SchedTreeSeq Proofs.SchedTreeRun Proofs.SchedTreeSpec
@@ -85,40 +85,43 @@ Theorem C02_parts_chain : forall p,
   (forall n d a r, items_from p (DoAt n d a 0 None :: r) =
      (map (fun k => IT (p + a k)) (seq 0 n) ++ fst (items_from (p + d) r), snd (items_from (p + d) r))) /\
   (forall d r, items_from p (Unlim d None :: r) =
-     (IW (p + d) :: fst (items_from (p + d) r), snd (items_from (p + d) r))).
+     (IW (p + d - d) (p + d) :: fst (items_from (p + d) r), snd (items_from (p + d) r))).
 Proof. intros p. split; [apply items_chain_doat|apply items_chain_unl]. Qed.
 Print Assumptions C02_parts_chain.
 
 (* Times never decrease.  The stream of a configuration whose leaves are well behaved
-   (offsets non-decreasing, within [0, duration] — property C01) is ordered ... *)
-Theorem C02_stream_ordered : forall fl p,
+   (offsets non-decreasing, within [0, duration] - property C01) is ordered ([m] = any lower
+   bound of the clock) ... *)
+Theorem C02_stream_ordered : forall fl p m,
   Forall leaf_ok fl -> Forall unstarted fl ->
-  ordered p (fst (items_from p fl)) (snd (items_from p fl)).
+  ordered p m (fst (items_from p fl)) (snd (items_from p fl)).
 Proof. exact items_ordered. Qed.
 Print Assumptions C02_stream_ordered.
 
-(* ... so without unlimited parts the times returned never decrease, whatever the clock ... *)
-Theorem C02_mono_finite : forall nows f its lo,
-  existsb is_window its = false -> ordered lo its f -> nondecr lo (nexts nows f its).
+(* ... so the times returned by successive Next calls never decrease, for every non-decreasing
+   clock, unlimited parts included (an unlimited part answers max(now, its start): after fix
+   2c601b5 it no longer hands out tokens before its own start) ... *)
+Theorem C02_mono : forall nows f its lo m,
+  ordered lo m its f -> clock_mono m nows -> nondecr lo (nexts nows f its).
+Proof. exact nexts_nondecr. Qed.
+Print Assumptions C02_mono.
+
+(* ... and without unlimited parts whatever the clock does. *)
+Theorem C02_mono_finite : forall nows f its lo m,
+  existsb is_window its = false -> ordered lo m its f -> nondecr lo (nexts nows f its).
 Proof. exact nexts_nondecr_nowin. Qed.
 Print Assumptions C02_mono_finite.
 
-(* ... and with unlimited parts they never decrease for a caller that waits for the time it
-   was given before it calls again (hypothesis [waits]).  PARTIAL: without that hypothesis the
-   statement is false, see C02_mono_refuted (known finding nowait-time-decreases). *)
-Theorem C02_mono_partial : forall nows f its lo,
-  ordered lo its f -> waits lo nows f its -> nondecr lo (nexts nows f its).
-Proof. exact nexts_nondecr. Qed.
-Print Assumptions C02_mono_partial.
-
-Theorem C02_mono_refuted : exists c ops,
-  let s := match build 3 0 c with Ok s => s | _ => once 0 end in
-  run_tree 3 s ops = [RNext 5 true; RNext 0 true].
-Proof.
-  exists (CComp [CDoAt 1 10 (fun _ => 5); CUnlim 10]), [(0, ONext); (0, ONext)].
-  vm_compute. reflexivity.
-Qed.
-Print Assumptions C02_mono_refuted.
+(* the former counter-example (a caller that does not wait): one token at 5 of a 10 ns part, then
+   an unlimited part, two Next at clock 0 - the second answer is the start of the unlimited part *)
+Example C02_mono_example :
+  let c := CComp [CDoAt 1 10 (fun _ => 5); CUnlim 10] in
+  match build 3 0 c with
+  | Ok s => run_tree 3 s [(0, ONext); (0, ONext); (12, ONext); (25, ONext)]
+            = [RNext 5 true; RNext 10 true; RNext 12 true; RNext 20 false]
+  | _ => False
+  end.
+Proof. vm_compute. reflexivity. Qed.
 
 (* ------------------------------------------------------------------ instance_step *)
 (* NewInstanceStep(from,to,step,dur): from tokens at the start, then step tokens at j*dur for
@@ -204,9 +207,10 @@ Theorem C02_conc_exactly_once : forall fuel c0 lo0 ths st,
 Proof. exact conc_exactly_once. Qed.
 Print Assumptions C02_conc_exactly_once.
 
-(* per-thread monotonicity for finite schedules with well-behaved leaves *)
+(* per-thread monotonicity: the times a thread is given never decrease (well-behaved leaves,
+   unlimited parts included, any interleaving, any non-decreasing clock) *)
 Theorem C02_conc_thread_mono : forall fuel c0 lo0 ths st,
-  conc_conclusion fuel c0 lo0 ths st -> existsb unknown_part (flatten c0) = false ->
+  conc_conclusion fuel c0 lo0 ths st ->
   Forall leaf_ok (flatten c0) -> Forall unstarted (flatten c0) ->
   exists p, forall i th, nth_error (g_threads (i_g st)) i = Some th ->
     nondecr p (next_results (t_hist th)).
